@@ -34,6 +34,8 @@ CONSTANTS
     InitErrDev,      \* error-device set at start
     WLevels,         \* severities for which per-level writers are explored
     WantsLevel,      \* writers that ask to be told the severity before each Write (LevelSettable)
+    FailSets,        \* sequence of fault assignments explored by LogF: sets of <<phase, writer, occurrence>>
+    LogSevs,         \* severities explored by LogF
     MaxList,         \* bound on the length of attribute / writer / context-key lists in the exhaustive model
     Acts             \* enabled action families (subset of AllActs)
 
@@ -42,7 +44,7 @@ VARIABLE st
 STDOUT == -1
 STDERR == -2
 
-AllActs == {"Set", "With", "New", "NewDetached", "PkgSetLevel", "SetDefault"}
+AllActs == {"Set", "With", "New", "NewDetached", "PkgSetLevel", "SetDefault", "LogF"}
 
 -----------------------------------------------------------------------------
 (* Per-logger configuration *)
@@ -154,6 +156,7 @@ Guard(s, e) ==
       [] e.op = "NewDetached" -> TRUE
       [] e.op = "PkgSetLevel" -> TRUE
       [] e.op = "SetDefault" -> e.l \in Live(s)
+      [] e.op = "LogF" -> e.l \in Live(s)          \* a record of severity e.a under fault assignment FailSets[e.b]
       [] OTHER -> FALSE
 
 Step(s, e) ==
@@ -180,6 +183,7 @@ Step(s, e) ==
       [] e.op = "PkgSetLevel" ->
            {[s EXCEPT !.deflvl = e.a, !.cfg[s.deflog].level = e.a, !.dbg = s.dbg \/ e.a = Debug]}
       [] e.op = "SetDefault" -> {[s EXCEPT !.deflog = e.l]}
+      [] e.op = "LogF" -> {s}                        \* logging never changes the configuration; no fault state exists
 
 \* the logger a call returns (0: nothing / not a logger)
 Ret(s, e, s2) ==
@@ -213,6 +217,23 @@ Merge(as) == LET ks == SetToSortSeq(AKeys(as), <) IN [i \in 1..Len(ks) |-> <<ks[
 
 \* C01: does logger l emit a record of severity r
 Emits(s, l, r) == Admit(s.cfg[l].level, r, s.dbg, s.treat)
+
+(* C02 / C13: delivery of one record.  Every destination selected for the severity is attempted
+   exactly once, whatever the other attempts do; if an attempt failed, the record was not itself a
+   warning and the logger admits Warn, ONE diagnostic warning record is attempted once on every
+   warning destination; a failing diagnostic produces nothing further.  A fault assignment names
+   the failing attempts as <<phase, writer, occurrence>> (phase 1 the record, 2 the diagnostic;
+   occurrence counts repeated list entries).                                                      *)
+Occ(d, j) == Cardinality({x \in 1..j : d[x] = d[j]})
+Attempts(d, phase, fails) ==
+    [j \in 1..Len(d) |-> [w |-> d[j], ph |-> phase, fail |-> (<<phase, d[j], Occ(d, j)>> \in fails)]]
+AnyFail(as) == \E j \in 1..Len(as) : as[j].fail
+WantsDiag(s, l, r, a1) == AnyFail(a1) /\ r # Warn /\ Emits(s, l, Warn)
+Deliver(s, l, r, fails) ==
+    IF ~Emits(s, l, r) THEN <<>>
+    ELSE LET a1 == Attempts(Dest(s, l, r), 1, fails)
+             a2 == IF WantsDiag(s, l, r, a1) THEN Attempts(Dest(s, l, Warn), 2, fails) ELSE <<>>
+         IN a1 \o a2
 
 EachOf(s, l) ==   \* Each: every logger of the subtree exactly once, with its depth below l
     LET sub == Subtree(s, l)
@@ -252,6 +273,7 @@ New(l, nm, oi) == "New" \in Acts /\ st.n < MaxLoggers /\ Do("New", l, nm, oi, 0)
 NewDetached(nm, oi) == "NewDetached" \in Acts /\ st.n < MaxLoggers /\ Do("NewDetached", 0, nm, oi, 0)
 PkgSetLevel(v) == "PkgSetLevel" \in Acts /\ "Level" \in DOMAIN SetterArgs /\ <<v, 0>> \in SetterArgs["Level"] /\ Do("PkgSetLevel", 0, "", v, 0)
 SetDefault(l) == "SetDefault" \in Acts /\ Do("SetDefault", l, "", 0, 0)
+LogF(l, r, fi) == "LogF" \in Acts /\ Do("LogF", l, "", r, fi)
 
 Next ==
     \/ \E l \in 1..MaxLoggers, k \in DOMAIN SetterArgs, a \in ArgA, b \in ArgB : Set(l, k, a, b)
@@ -260,6 +282,7 @@ Next ==
     \/ \E nm \in Names \cup {""}, oi \in DOMAIN OptLists : NewDetached(nm, oi)
     \/ \E v \in ArgA : PkgSetLevel(v)
     \/ \E l \in 1..MaxLoggers : SetDefault(l)
+    \/ \E l \in 1..MaxLoggers, r \in LogSevs, fi \in DOMAIN FailSets : LogF(l, r, fi)
 
 Init == st = InitState
 Spec == Init /\ [][Next]_st
@@ -302,6 +325,20 @@ DbgSticky == [][st.dbg => st'.dbg]_st
 GateAgrees ==
     \A l \in Live(st) : \A r \in (Builtin \cup DOMAIN st.treat \cup {13, 15, -8}) :
         Admit(st.cfg[l].level, r, st.dbg, st.treat) = EnabledMech(st.cfg[l].level, r, st.dbg, st.treat)
+
+\* C13 at design level, for every logger, severity and fault assignment of the configuration
+BoundedReaction ==
+    \A l \in Live(st) : \A r \in LogSevs : \A fi \in DOMAIN FailSets :
+        LET d == Deliver(st, l, r, FailSets[fi])
+            p1 == SelectSeq(d, LAMBDA x : x.ph = 1)
+            p2 == SelectSeq(d, LAMBDA x : x.ph = 2)
+        IN /\ ~Emits(st, l, r) => d = <<>>
+           \* every selected destination is attempted exactly once, failing or not
+           /\ Emits(st, l, r) => [j \in 1..Len(p1) |-> p1[j].w] = Dest(st, l, r)
+           \* at most one diagnostic record, only after a failure, never for a warning, never a cascade
+           /\ p2 # <<>> => /\ AnyFail(p1) /\ r # Warn /\ Emits(st, l, Warn)
+                           /\ [j \in 1..Len(p2) |-> p2[j].w] = Dest(st, l, Warn)
+           /\ Len(d) <= Len(Dest(st, l, r)) + Len(Dest(st, l, Warn))
 
 \* C03 at design level: a record goes to exactly one of the three lists
 RouteOK ==
